@@ -40,7 +40,7 @@ func init() {
 	w := map[string]int{"nextBlock": 12, "depositNST": 8, "withdrawNST": 2, "delegate": 12, "undelegate": 16, "nstUpdate": 12, "slash": 2, "optOut": 1, "setKey": 1}
 	base := *worldProps["C03"]
 	base.Name = "C03NST"
-	base.Gen = GenOpts{Weights: w, HostilePct: 4, ExtremePct: 0, Anchor: true, Tempos: []int{2, 6, 20}, ForceFocus: 3, FocusPct: 92, CapBits: 90, ClampBits: 40}
+	base.Gen = GenOpts{Weights: w, HostilePct: 4, ExtremePct: 0, Anchor: true, Tempos: []int{2, 6, 20}, ForceFocus: 3, FocusPct: 92, CapBits: 40, ClampBits: 40}
 	base.MinSteps, base.MaxSteps = 20, 60
 	registerWorldProp(&base)
 }
